@@ -1,6 +1,7 @@
 package main
 
 import (
+	"bytes"
 	"errors"
 	"fmt"
 	"io"
@@ -192,6 +193,28 @@ func execTW(args []string) string {
 	return strings.Join(out, " ")
 }
 
+// twnest: args = inner limit, outer limits (comma separated), writes "k:hex" (through outer k).
+// Several TruncatedWriters share one inner TruncatedWriter, which wraps a sink that takes everything:
+// each writer forwards to the writer it was given, so the sink receives the first min(total, inner limit)
+// bytes of what the outers let through.  Observed: n and error of every Write, the sink's content.
+func execTWNest(args []string) string {
+	innerLimit, _ := strconv.ParseUint(args[0], 10, 64)
+	var sink bytes.Buffer
+	inner := ioutil.NewTruncatedWriter(&sink, uint(innerLimit))
+	var outers []*ioutil.TruncatedWriter
+	for _, l := range SplitList(args[1], ",") {
+		lim, _ := strconv.ParseUint(l, 10, 64)
+		outers = append(outers, ioutil.NewTruncatedWriter(inner, uint(lim)))
+	}
+	var out []string
+	for _, w := range SplitList(args[2], ",") {
+		f := strings.SplitN(w, ":", 2)
+		n, err := outers[Atoi(f[0])].Write(UnH(f[1]))
+		out = append(out, fmt.Sprintf("%d:%s", n, b2s(err != nil)))
+	}
+	return strings.Join(out, " ") + " sink=" + H(sink.Bytes())
+}
+
 func joinInts(xs []int) string {
 	s := make([]string, len(xs))
 	for i, x := range xs {
@@ -305,6 +328,26 @@ func genC15(g *G) {
 		}
 		g.Emit("lrx", lim, joinInts(pl), joinPairs(sc))
 	}
+	// truncated writers sharing an inner truncated writer
+	for i := 0; i < g.N(3000, 60000); i++ {
+		nOuter := 1 + g.Rnd.IntN(3)
+		var lims []string
+		for j := 0; j < nOuter; j++ {
+			lims = append(lims, I(g.Rnd.IntN(8)))
+		}
+		var ws []string
+		off := 0
+		for j := g.Rnd.IntN(6); j > 0; j-- {
+			n := g.Rnd.IntN(5)
+			b := make([]byte, n)
+			for k := range b {
+				b[k] = byte(off + k + 1)
+			}
+			off += n
+			ws = append(ws, I(g.Rnd.IntN(nOuter))+":"+H(b))
+		}
+		g.Emit("twnest", I(g.Rnd.IntN(10)), strings.Join(lims, ","), strings.Join(ws, ","))
+	}
 	// truncated writer
 	for i := 0; i < g.N(20000, 400000); i++ {
 		lim := limits[g.Rnd.IntN(len(limits))]
@@ -333,7 +376,7 @@ func genC15(g *G) {
 func init() {
 	properties["C15"] = &Property{
 		Gen:  genC15,
-		Exec: map[string]Executor{"lr": execLR, "lrx": execLRX, "tw": execTW},
+		Exec: map[string]Executor{"lr": execLR, "lrx": execLRX, "tw": execTW, "twnest": execTWNest},
 		Nontrivial: func(fn string, args []string, obs string) bool {
 			// at least one call reached the wrapped reader / writer
 			for _, o := range strings.Fields(obs) {
